@@ -11,6 +11,19 @@ TEXT = {
           "enoughPlasma over ledger states is covered by correspondence only.",
   "technique": "Lean 4 proof (omega/induction) + regenerated constants + differential correspondence",
  },
+ "C13": {
+  "text": "Kernel-checked theorems over a byte-exact model of AccountBlock.ComputeHash / Momentum.ComputeHash (hash "
+          "function as parameter): the pre-image determines every covered field for all amounts >= 0, equal hashes of "
+          "hash-consistent blocks give equal covered fields recursively through descendants; protobuf Proto/DeProto and "
+          "wire round trips; JSON amount / nonce forms. Field order, encoders, struct field coverage and protobuf "
+          "schema are regenerated from the AST of the tree and compared by theorems; model tied by a differential "
+          "stream on pre-image and Serialize() bytes plus Go-side round-trip monitors for protobuf, JSON and RLP.",
+  "design_ref": "§3 C13",
+  "note": "Hash function is a parameter; T2 (stored bytes are a function of covered fields and state) and the two-node "
+          "`variants` stream are not built in this round; RLP and JSON object structure are covered by Go-side "
+          "round-trip monitors, not by a Lean codec.",
+  "technique": "Lean 4 proof (induction/omega/decide) + regenerated AST facts + differential correspondence",
+ },
  "C18": {
   "text": "Kernel-checked theorems that GetRange is the statement's slice for all (index,count,len), pages tile the "
           "list and each element lies on exactly one page; model tied by a differential stream over the full uint32 range.",
